@@ -1,4 +1,5 @@
 import OnetVerif.Model.C12
+import OnetVerif.Shapes
 /-! Property C12 — generated trees are well-formed and have the documented shape.
 Property theorems, negation witness, `_partial` variants, non-vacuity examples and the lemmas they
 need (core Lean only). -/
@@ -1026,4 +1027,39 @@ theorem c12_big_distinct_partial (c : BigCfg) (hN : 1 ≤ c.N) (hall : c.nodes =
 /-- non-vacuity of the big-generator theorems: the hypotheses are satisfiable and the call returns -/
 example : ∃ lv, genBig { N := 3, nodes := 13, hosts := [0, 1, 2, 0, 1] } = .tree lv :=
   c12_big_terminates _ (by decide) (by decide) (by decide)
+/-! ### the code regions the model stands for
+Regenerated from /repo's source on every run (`harness/cmd/astfacts` → `OnetVerif/Shapes.lean`): the
+calls that matter for synchronisation and data flow, the lock regions and (for decision logic) the
+conditions, in source order.  A re-ordering, a dropped call or a changed condition breaks these
+obligations even when no sampled input or schedule shows a difference; the check then searches for
+a failing input. -/
+theorem c12_shape_Roster_GenerateBigNaryTree :
+    Shapes.tree_Roster_GenerateBigNaryTree =
+   ["if:(len(ro.List)==0)", "NewTreeNode", "if:(children>N)", "Address.Host", "Address.Host",
+     "if:(useAll&&used[])", "if:(roIndex==roIndexFirst)", "if:(roIndex==roIndexFirst)",
+     "Address.Host", "NewTreeNode", "return:NewTree(ro,root)"] := rfl
+
+theorem c12_shape_Roster_GenerateNaryTreeWithRoot :
+    Shapes.tree_Roster_GenerateNaryTreeWithRoot =
+   ["if:(root!=nil)", "ro.Search", "if:(rootIndex<0)", "return:nil", "else", "NewTreeNode",
+     "if:(parents[].SubtreeCount()==N)", "if:(len(parents)==0)", "NewTreeNode",
+     "parents[].AddChild", "return:NewTree(ro,rootNode)"] := rfl
+
+theorem c12_shape_Roster_GenerateNaryTree :
+    Shapes.tree_Roster_GenerateNaryTree =
+   ["ro.GenerateNaryTreeWithRoot"] := rfl
+
+theorem c12_shape_Roster_GenerateBinaryTree :
+    Shapes.tree_Roster_GenerateBinaryTree =
+   ["ro.GenerateNaryTree"] := rfl
+
+theorem c12_shape_Roster_GenerateStar :
+    Shapes.tree_Roster_GenerateStar =
+   ["ro.GenerateNaryTree"] := rfl
+
+theorem c12_shape_NewTreeNode :
+    Shapes.tree_NewTreeNode =
+   ["Public.String", "uuid.NewSHA1", "TreeNodeID"] := rfl
+
+
 end C12
